@@ -190,6 +190,19 @@ def gen(rng, n_state, n_e2e):
         case = {"kind": "e2e", "spec": spec, "n_inc": n_inc, "dt": str(rng.choice([F(1), F(1, 2)]))}
         ps = net.build(dict(spec, exact=False))
         case["faults"] = acct.rand_faults(rng, ps, n_inc, ("line",), nmax=4)
+        ties = [l for l in ps.lines if l.is_backup]
+        if ties and rng.random() < 0.6:
+            # a backup that fails while it is in service: a long primary fault next to the tie, then a fault on the tie itself in one
+            # of the increments right after the sectioning time has run out (when the tie has been closed)
+            import math
+            tl = rng.choice(ties)
+            prim = [l for l in ps.lines if not l.is_backup and l.parent_network is not None and (tl.fbus in (l.fbus, l.tbus) or tl.tbus in (l.fbus, l.tbus) or rng.random() < 0.3)]
+            if prim:
+                T = F(spec["ctrl"]["T"]); dt = F(case["dt"])
+                k0 = rng.randint(1, 2)
+                kt = k0 + math.ceil(T / dt) + rng.choice([0, 1, 1, 2])
+                case["n_inc"] = max(n_inc, kt + 4)
+                case["faults"] = {str(k0): [["line", rng.choice(prim).name, "6"]], str(kt): [["line", tl.name, str(rng.choice([F(1), F(2)]))]]}
         cases.append(case)
     return cases
 
@@ -199,7 +212,7 @@ def run(res):
     ns, ne = (150, 20) if res.tier == "quick" else (3000, 300)
     res.rule = ("1-3 feeders (laterals, 0-2 disconnectors per line), 1-3 backup ties (also two between the same pair of feeders), optional microgrid; "
                 "state cases: random lines/switches opened, failed backups, running sectioning timers, then find_sub_systems; "
-                "e2e: every find_sub_systems call of real runs with 1-4 injected overlapping line faults. "
+                "e2e: every find_sub_systems call of real runs with 1-4 injected overlapping line faults (ties included); 60% of the systems with ties instead get a long primary fault followed by a fault on the tie in the increments right after it has been closed. "
                 "non-trivial = distinct (number of islands, backups closed, backups available)")
     run_cases(res, gen(rng, ns, ne), handler)
 
